@@ -251,16 +251,18 @@ fn check_geometry(v: &mut Verdict, fam: &Family, var: &Variant, out: &Outcome, c
         }
         // opposite sides of the camber direction (neighbours that do not coincide with the station:
         // the two halves of the extraction both start with the same circle)
+        // (a neighbour closer than a few analysis tolerances gives no direction: the junction of the two halves)
+        let near = 1e-9 * scale + 20.0 * core_tol;
         let mut dir = Vector2::zeros();
         for j in (k + 1)..st.len() {
-            if (st[j].center() - s.center()).norm() > 1e-9 * scale {
+            if (st[j].center() - s.center()).norm() > near {
                 dir = st[j].center() - s.center();
                 break;
             }
         }
         if dir.norm() == 0.0 {
             for j in (0..k).rev() {
-                if (st[j].center() - s.center()).norm() > 1e-9 * scale {
+                if (st[j].center() - s.center()).norm() > near {
                     dir = s.center() - st[j].center();
                     break;
                 }
@@ -283,12 +285,14 @@ fn check_geometry(v: &mut Verdict, fam: &Family, var: &Variant, out: &Outcome, c
     });
     v.require(worst_contact <= tol_i, "airfoil.contact_points_on_section", || format!("{tag}: {worst_contact:e} le={le:?} te={te:?}"));
     v.require(worst_radius <= tol_i, "airfoil.contact_points_one_radius_from_centre", || format!("{tag}: {worst_radius:e} le={le:?} te={te:?}"));
-    v.require(same_side.is_none(), "airfoil.contact_points_on_opposite_sides", || format!("{tag}: station {:?} of {} le={le:?} te={te:?}", same_side, st.len()));
+    v.require(same_side.is_none(), "airfoil.contact_points_on_opposite_sides", || format!("{tag}: station {:?} of {} le={le:?} te={te:?} fam={fam:?}", same_side, st.len()));
     // 2. monotone advance from leading to trailing edge, along the known camber
     let feet: Vec<(f64, f64)> = st.iter().map(|s| fam.foot(&(inv * s.center()))).collect();
     let mut back = None;
     for k in 0..feet.len() - 1 {
-        if feet[k + 1].1 <= feet[k].1 - (1e-6 * fam.len + 2.0 * core_tol) && back.is_none() {
+        // (stations of the two extraction halves and of the edge methods are placed to the analysis tolerance: a
+        // near-duplicate may sit a few tolerances behind its predecessor)
+        if feet[k + 1].1 <= feet[k].1 - (1e-6 * fam.len + 5.0 * core_tol) && back.is_none() {
             back = Some((k, feet[k].1, feet[k + 1].1));
         }
     }
@@ -314,7 +318,7 @@ fn check_geometry(v: &mut Verdict, fam: &Family, var: &Variant, out: &Outcome, c
     v.require(rad <= disc, "airfoil.radii_follow_known_law", || format!("{tag}: {rad:e} (tol {disc:e}) le={le:?} te={te:?}"));
     let (s_max, r_max) = fam.tmax();
     let tm = geo.find_tmax();
-    v.require((tm.radius() - r_max).abs() <= disc, "airfoil.max_thickness_recovered", || format!("{tag}: {} vs {r_max}", tm.radius()));
+    v.require((tm.radius() - r_max).abs() <= disc, "airfoil.max_thickness_recovered", || format!("{tag}: {} vs {r_max} le={le:?} te={te:?} core_tol={core_tol} fam={fam:?} stations {} first s {:.3} last s {:.3}", tm.radius(), st.len(), feet[0].1, feet[feet.len() - 1].1));
     let tm_s = fam.foot(&(inv * tm.center())).1;
     // the maximum is flat: position tolerance from the curvature of the law
     let flat = (2.0 * disc / (8.0 * fam.b / (fam.len * fam.len))).sqrt() + 0.3 * r_max;
@@ -362,9 +366,14 @@ fn check_geometry(v: &mut Verdict, fam: &Family, var: &Variant, out: &Outcome, c
                     var.iso * (nm * if fam.bend >= 0.0 { -1.0 } else { 1.0 })
                 }
             };
-            if upper_req.is_some() || fam.bend.abs() > 0.1 {
+            // detection looks at the camber point farthest from the chord between the two END points of the
+            // camber; an edge point placed by ConstRadiusEdge can sit up to an edge radius off the axis (see the
+            // edge clauses), which tilts that chord: detection is judged when the camber's sagitta dominates
+            let sagitta = fam.bend.abs() * fam.len / 8.0;
+            let slack = if le == Edge::ConstRadius || te == Edge::ConstRadius { 2.0 * fam.r0.max(fam.r1) } else { 0.0 };
+            if upper_req.is_some() || (fam.bend.abs() > 0.1 && sagitta > slack) {
                 let mean = |c: &Curve2| c.points().iter().fold(Vector2::zeros(), |a, p| a + p.coords) / c.points().len() as f64;
-                v.require((mean(u) - mean(l)).dot(&want) > 0.0, "airfoil.upper_face_on_requested_side", || format!("{tag}: requested {:?}", upper_req));
+                v.require((mean(u) - mean(l)).dot(&want) > 0.0, "airfoil.upper_face_on_requested_side", || format!("{tag}: requested {:?} le={le:?} te={te:?} fam={fam:?} stations {}", upper_req, st.len()));
             }
             if let (Some(le_e), Some(te_e)) = (&geo.leading_edge, &geo.trailing_edge) {
                 for c in [u, l] {
@@ -683,6 +692,25 @@ pub fn run(rng: &mut Rng, n: usize, thorough: bool) {
             _ => {
                 sections(rng);
                 k += if thorough { 10 } else { 20 }
+            }
+        }
+    }
+}
+
+/// ad-hoc probe entry (not part of the check)
+pub fn probe() {
+    let fam = Family { len: 10.0, bend: 0.0, r0: 0.35108982701107483, r1: 0.15727191046478503, b: 0.589786459622958, n_side: 80, n_cap: 30 };
+    let pts = fam.outline();
+    for (le, te) in [(Edge::TraceMaxCurv, Edge::ConvergeTangent), (Edge::Intersect, Edge::Intersect), (Edge::TraceMaxCurv, Edge::Intersect), (Edge::Intersect, Edge::ConvergeTangent)] {
+        for orient in [None, Some(Vector2::new(-1.0, 0.0))] {
+            let r = analyze(pts.clone(), 1e-6, 1e-4, orient, le, te, None, 1.0);
+            match r {
+                Some(Ok(o)) => {
+                    let st = &o.geo.stations;
+                    println!("le={le:?} te={te:?} orient={orient:?}: {} stations, x from {:.3} to {:.3}, camber length {:.3}, le {:?} te {:?}", st.len(), st[0].center().x, st[st.len() - 1].center().x, o.geo.camber.length(), o.geo.leading_edge.as_ref().map(|e| e.point), o.geo.trailing_edge.as_ref().map(|e| e.point));
+                }
+                Some(Err(e)) => println!("le={le:?} te={te:?} orient={orient:?}: Err {e}"),
+                None => println!("timeout"),
             }
         }
     }
